@@ -199,7 +199,7 @@ Section GrowLazy.
     - split; [exact Hinv'|]. split; [|split].
       + intros t pos ser label0 act Hsl. destruct (se_new _ _ _ _ _ _ E _ _ _ _ Hsl) as [Hold|(_ & _ & _ & Es)]; [eauto|]. inversion Es; reflexivity.
       + intros q x Hx. change (lz_of w1 q = Some x) in Hx. rewrite (sub_lz_of _ _ _ _ _ _ E) in Hx. eauto.
-      + intros b x Hx. change (get_bind w1 b = Some x) in Hx. unfold get_bind in Hx. rewrite (se_binds _ _ _ _ _ _ E) in Hx. exact (Hal b x Hx).
+      + split; [exact (proj1 Hal)|]. intros b x Hx. change (get_bind w1 b = Some x) in Hx. unfold get_bind in Hx. rewrite (se_binds _ _ _ _ _ _ E) in Hx. exact (proj2 Hal b x Hx).
     - exists s. split; [exact (sub_LRel _ _ _ _ _ _ _ E HRel)|exact HS].
   Qed.
 
@@ -208,7 +208,7 @@ Section GrowLazy.
   Proof.
     intros HSC HS H. cbn [step1] in H. destruct (lookup (w_props w) p) as [pr|] eqn:Hp; [|discriminate H].
     destruct (pr_updater pr) eqn:Hu; [discriminate H|].
-    destruct (lazy_assignment fn rtl ev ev_pos f w p v w' HSC (LCOH_of_LSND w (proj1 HSC) HS) H) as (A1 & A2 & _). split; [exact A1|apply LSND_of_LCOH; exact A2].
+    destruct (lazy_assignment fn rtl ev f w p v w' HSC (LCOH_of_LSND w (proj1 HSC) HS) H) as (A1 & A2 & _). split; [exact A1|apply LSND_of_LCOH; exact A2].
   Qed.
 
   Lemma grow_evalall_lazy fuel w e st w' :
@@ -216,7 +216,7 @@ Section GrowLazy.
     step1 fn rtl fuel w (BevEvalAll e) = (w', None) -> LSC w' /\ LSND w'.
   Proof.
     intros HSC HS He Hst H.
-    destruct (lazy_evalall_keeps fn rtl ev ev_pos fuel w e st w' HSC (LCOH_of_LSND w (proj1 HSC) HS) He Hst H) as (A1 & A2 & _).
+    destruct (lazy_evalall_keeps fn rtl ev fuel w e st w' HSC (LCOH_of_LSND w (proj1 HSC) HS) He Hst H) as (A1 & A2 & _).
     split; [exact A1|apply LSND_of_LCOH; exact A2].
   Qed.
 
@@ -264,15 +264,16 @@ Section GrowLazy.
   Qed.
 
   (* p = makeBoundProperty(evaluator, expression): a fresh property bound through the evaluator *)
-  Lemma grow_bind_lazy fuel w p e e0 w' :
-    LSC w -> LSND w -> LREG w -> lookup (w_props w) p = None -> lookup (w_bevs w) e0 = Some ev ->
+  (* the evaluator may be ev or ANY other explicit evaluator ev' *)
+  Lemma grow_bind_lazy fuel w p e e0 ev' w' :
+    LSC w -> LSND w -> LREG w -> lookup (w_props w) p = None -> lookup (w_bevs w) e0 = Some ev' -> ev' <> 0 ->
     step1 fn rtl fuel w (PBind p e (MEvaluator e0)) = (w', None) -> LSC w' /\ LSND w' /\ LREG w'.
   Proof.
-    intros HSC HS HREG Hp He0 H. pose proof HSC as (Hinv & Hna & Hsi & Hal). cbn [step1] in H.
+    intros HSC HS HREG Hp He0 Hev' H. pose proof HSC as (Hinv & Hna & Hsi & Hal). cbn [step1] in H.
     destruct (make_binding fn rtl w e (MEvaluator e0)) as [[w3 b]|ex] eqn:Hm; [|discriminate H].
     destruct (make_binding_pinv _ _ _ _ _ _ _ Hinv Hm) as (Hinv3 & _ & Hheld3).
     (* open the constructor of the binding *)
-    unfold make_binding in Hm. rewrite He0 in Hm. destruct (nth_error (w_evps w) ev) as [st|] eqn:Hst; [|discriminate Hm].
+    unfold make_binding in Hm. rewrite He0 in Hm. destruct (nth_error (w_evps w) ev') as [st|] eqn:Hst; [|discriminate Hm].
     set (b0 := length (w_binds w)) in *.
     destruct (build fn rtl w b0 0 e) as [[[[w1 root] n1]|]|ex] eqn:Hb; try discriminate Hm. inversion Hm; subst w3 b; clear Hm.
     assert (H0 : BI (w_serial w) b0 0 [] [] w).
@@ -289,7 +290,7 @@ Section GrowLazy.
       - intros lf h []. }
     destruct (build_grow fn rtl _ _ _ _ _ _ _ _ _ H0 Hb) as [(_ & _ & Gv & _ & Gobs) Ttree].
     pose proof (build_basic _ _ _ _ _ _ _ _ _ H0 Hb) as BG. pose proof BG as (B1 & B2 & B3 & B4 & B5).
-    set (nb := {| b_root := root; b_evp := ev; b_regid := S (ep_next st); b_target := None; b_alive := true |}) in *.
+    set (nb := {| b_root := root; b_evp := ev'; b_regid := S (ep_next st); b_target := None; b_alive := true |}) in *.
     match type of Hinv3 with pinv ?W => set (w3 := W) in * end.
     assert (Gb : forall b', b' < b0 -> get_bind w3 b' = get_bind w b').
     { intros b' Hlt. unfold get_bind, w3; cbn [set_binds set_evps w_binds]. rewrite nth_error_app1 by (rewrite B1; exact Hlt). rewrite B1. reflexivity. }
@@ -306,8 +307,8 @@ Section GrowLazy.
     assert (V3 : forall q, values w3 q = values w q) by (intros q; change (values w3 q) with (values w1 q); apply Gv).
     assert (SC3 : LSC w3).
     { split; [exact Hinv3|]. split; [intros t pos ser label act Hs; eapply Hna; eapply Gobs; exact Hs|]. split; [intros q x Hx; rewrite IO3 in Hx; eauto|].
-      intros b' x' Hx'. destruct (Nat.lt_ge_cases b' b0) as [Hlt|Hge]; [rewrite (Gb _ Hlt) in Hx'; eauto|].
-      destruct (Nat.eq_dec b' b0) as [->|Hne]; [rewrite Gn in Hx'; inversion Hx'; reflexivity|].
+      split; [exact ev_pos|]. intros b' x' Hx'. destruct (Nat.lt_ge_cases b' b0) as [Hlt|Hge]; [rewrite (Gb _ Hlt) in Hx'; exact (proj2 Hal _ _ Hx')|].
+      destruct (Nat.eq_dec b' b0) as [->|Hne]; [rewrite Gn in Hx'; inversion Hx'; exact Hev'|].
       exfalso. unfold get_bind, w3 in Hx'; cbn [set_binds set_evps w_binds] in Hx'.
       replace (nth_error (w_binds w1 ++ [nb]) b') with (@None binding) in Hx'; [discriminate Hx'|]. symmetry. apply nth_error_None. rewrite app_length, B1. cbn. unfold b0 in *. lia. }
     assert (SND3 : LSND w3).
@@ -371,57 +372,77 @@ Section GrowLazy.
     assert (SC7 : LSC w7).
     { split; [exact Hinv7|]. split; [intros t0 pos ser label act Hs; unfold slot_at in Hs; rewrite T7 in Hs; eapply Hnan; eauto|]. split.
       - intros q x Hx. rewrite IO7 in Hx. destruct (Nat.eqb_spec q p) as [->|]; [|eauto]. inversion Hx; subst x. cbn [bind_with_root b_root]. congruence.
-      - intros b' x' Hx'. rewrite G7 in Hx'. destruct (Nat.eqb_spec b0 b') as [<-|]; [inversion Hx'; reflexivity|eauto]. }
+      - split; [exact ev_pos|]. intros b' x' Hx'. rewrite G7 in Hx'. destruct (Nat.eqb_spec b0 b') as [<-|]; [inversion Hx'; exact Hev'|exact (proj2 Haln _ _ Hx')]. }
     assert (SND7 : LSND w7).
     { exists {| L.lenv := L.lenv sn; L.ltr := A.set_tr (L.ltr sn) p T |}. split; [split|].
       - intros q prq Hq. rewrite L7 in Hq. cbn [L.lenv]. destruct (Nat.eqb_spec q p) as [->|]; [|auto]. inversion Hq; subst prq. exact (Rn1 _ _ Hpn).
       - intros q. cbn [L.ltr]. unfold A.set_tr. rewrite IO7. destruct (Nat.eqb_spec q p) as [->|]; [|apply Rn2]. cbn [bind_with_root b_root]. symmetry. exact Et.
       - intros q T0 HT0. cbn [L.ltr L.lenv] in *. unfold A.set_tr in HT0. destruct (Nat.eqb_spec q p) as [->|]; [|eauto].
         inversion HT0; subst T0. apply (consis_clean_sound (L.lenv sn) p T HC HN). }
-    (* the registry: one more entry at the end, for the fresh property *)
+    (* the registry of ev: one more entry at the end, for the fresh property, if the binding went to ev; unchanged if it went to ev' <> ev *)
+    assert (Lz7 : forall b', b' < b0 -> lz w7 b' = lz w b').
+    { intros b' Hlt'. unfold lz. rewrite G7. destruct (Nat.eqb_spec b0 b'); [lia|]. change (get_bind wn b') with (get_bind w3 b'). rewrite (Gb b' Hlt'). reflexivity. }
+    assert (IOq : forall q, q <> p -> lz_of w7 q = lz_of w q).
+    { intros q Hne. rewrite IO7. destruct (Nat.eqb_spec q p); [contradiction|]. unfold lz_of, wn; cbn [set_props w_props]. rewrite lookup_bind_other by exact Hne.
+      change (lz_of w3 q = lz_of w q). apply IO3. }
+    assert (Leafx : forall q x lf p', lz_of w q = Some x -> In lf (leaves (b_root x)) -> lf_tg lf = Some p' -> p' <> p).
+    { intros q x lf p' Hx Hi Ht ->. destruct (lz_of_bind _ _ _ Hx) as (b' & pr' & _ & _ & Hb').
+      destruct (leaf_target_exists w b' x lf p Hinv Hb' Hi Ht) as (pr0 & Hp0 & _). congruence. }
+    assert (Len7 : length (w_binds w7) = S b0).
+    { destruct V67 as (_ & _ & _ & _ & _ & _ & Ln). rewrite Ln. unfold w6, put_bind; cbn [set_binds w_binds]. rewrite upd_length.
+      change (w_binds w5) with (w_binds w3). unfold w3; cbn [set_binds set_evps w_binds]. rewrite app_length, B1. cbn. unfold b0. lia. }
+    assert (Ev7 : w_evps w7 = upd (w_evps w) ev' {| ep_registry := ep_registry st ++ [(S (ep_next st), b0)]; ep_next := S (ep_next st) |}).
+    { destruct (LFR_log_fns lg (put_bind w6 b0 (bind_with_root xb3 t))) as (_ & _ & _ & _ & _ & _ & _ & _ & E9 & _). fold w7 in E9. rewrite E9.
+      change (w_evps (put_bind w6 b0 (bind_with_root xb3 t))) with (w_evps w3). unfold w3; cbn [set_binds set_evps w_evps]. rewrite B2. reflexivity. }
     assert (REG7 : LREG w7).
-    { unfold LREG in HREG |- *. rewrite Hst in HREG. destruct HREG as (ND & HCr & HB & HE).
-      assert (Hev7 : nth_error (w_evps w7) ev = Some {| ep_registry := ep_registry st ++ [(S (ep_next st), b0)]; ep_next := S (ep_next st) |}).
-      { destruct (LFR_log_fns lg (put_bind w6 b0 (bind_with_root xb3 t))) as (_ & _ & _ & _ & _ & _ & _ & _ & E9 & _). fold w7 in E9. rewrite E9.
-        change (w_evps (put_bind w6 b0 (bind_with_root xb3 t))) with (w_evps w3). unfold w3; cbn [set_binds set_evps w_evps]. rewrite B2.
-        apply nth_upd_same. apply nth_error_Some. congruence. }
-      rewrite Hev7. cbn [ep_registry].
-      assert (Lz7 : forall b', b' < b0 -> lz w7 b' = lz w b').
-      { intros b' Hlt'. unfold lz. rewrite G7. destruct (Nat.eqb_spec b0 b'); [lia|]. change (get_bind wn b') with (get_bind w3 b'). rewrite (Gb b' Hlt'). reflexivity. }
-      assert (Er : regs_of w7 (ep_registry st) = regs_of w (ep_registry st)).
+    { destruct (Nat.eq_dec ev' ev) as [Eev|Nev].
+      { subst ev'.
+        unfold LREG in HREG |- *. rewrite Hst in HREG. destruct HREG as (ND & HCr & HB & HE).
+        assert (Hev7 : nth_error (w_evps w7) ev = Some {| ep_registry := ep_registry st ++ [(S (ep_next st), b0)]; ep_next := S (ep_next st) |}).
+        { rewrite Ev7. apply nth_upd_same. apply nth_error_Some. congruence. }
+        rewrite Hev7. cbn [ep_registry].
+        assert (Er : regs_of w7 (ep_registry st) = regs_of w (ep_registry st)).
+        { unfold regs_of. apply flat_map_ext_in'. intros rb Hi. rewrite (Lz7 _ (HB rb Hi)). reflexivity. }
+        assert (Erp : regs_of w7 (ep_registry st ++ [(S (ep_next st), b0)]) = regs_of w (ep_registry st) ++ [p]).
+        { unfold regs_of at 1. rewrite flat_map_app. fold (regs_of w7 (ep_registry st)). rewrite Er. f_equal. cbn [flat_map snd]. unfold lz. rewrite G7, Nat.eqb_refl. reflexivity. }
+        rewrite Erp.
+        assert (Hpn7 : forall q, In q (regs_of w (ep_registry st)) -> q <> p) by (intros q Hq ->; exact (HE p Hq Hp)).
+        split; [|split; [|split]].
+        - apply NoDup_snoc; [exact ND|]. intros Hi. exact (Hpn7 p Hi eq_refl).
+        - (* dependency order *)
+          assert (App : forall regs, (forall q, In q regs -> q <> p) -> lchain w regs -> lchain w7 (regs ++ [p])).
+          { induction regs as [|q r IHr]; cbn [lchain app]; intros Hne HCr'.
+            - split; [|exact I]. intros x lf p' Hx Hi Ht [<-|[]]. rewrite IO7, Nat.eqb_refl in Hx. inversion Hx; subst x. cbn [bind_with_root b_root] in Hi. rewrite Hl in Hi.
+              assert (Hlf : has_leaf w3 b0 lf) by (exists (leaves root), None; split; [unfold bview; rewrite Gn; reflexivity|exact Hi]).
+              apply (pi_leafx _ _ _ _ _ _ _ Hinv3 _ _ _ Hlf Ht). unfold pview. rewrite Hp3. reflexivity.
+            - destruct HCr' as [HA HCr']. split; [|apply IHr; [intros q' Hq'; apply Hne; right; exact Hq'|exact HCr']].
+              intros x lf p' Hx Hi Ht. rewrite (IOq q (Hne q (or_introl eq_refl))) in Hx. rewrite app_comm_cons, in_app_iff. intros [Hin|[E|[]]].
+              + exact (HA x lf p' Hx Hi Ht Hin).
+              + exact (Leafx q x lf p' Hx Hi Ht (eq_sym E)). }
+          apply App; [exact Hpn7|exact HCr].
+        - intros rb Hi. apply in_app_iff in Hi. rewrite Len7. destruct Hi as [Hi|[<-|[]]]; [specialize (HB rb Hi); unfold b0 in *; lia|cbn; lia].
+        - intros q Hi. rewrite L7. destruct (Nat.eqb_spec q p); [discriminate|]. apply in_app_iff in Hi. destruct Hi as [Hi|[<-|[]]]; [|congruence].
+          unfold wn; cbn [set_props w_props]. rewrite lookup_bind_other by assumption. specialize (HE q Hi).
+          pose proof (V3 q) as Evq. unfold values in Evq. destruct (lookup (w_props w3) q); [discriminate|]. destruct (lookup (w_props w) q); [discriminate Evq|contradiction]. }
+      (* another evaluator: the registry of ev is as it was, and nobody registered with ev reads the fresh property *)
+      unfold LREG in HREG |- *. rewrite Ev7, nth_upd_other by exact Nev.
+      destruct (nth_error (w_evps w) ev) as [st0|] eqn:Hst0; [|exact I]. destruct HREG as (ND & HCr & HB & HE).
+      assert (Er : regs_of w7 (ep_registry st0) = regs_of w (ep_registry st0)).
       { unfold regs_of. apply flat_map_ext_in'. intros rb Hi. rewrite (Lz7 _ (HB rb Hi)). reflexivity. }
-      assert (Erp : regs_of w7 (ep_registry st ++ [(S (ep_next st), b0)]) = regs_of w (ep_registry st) ++ [p]).
-      { unfold regs_of at 1. rewrite flat_map_app. fold (regs_of w7 (ep_registry st)). rewrite Er. f_equal. cbn [flat_map snd]. unfold lz. rewrite G7, Nat.eqb_refl. reflexivity. }
-      rewrite Erp.
-      assert (Hpn7 : forall q, In q (regs_of w (ep_registry st)) -> q <> p) by (intros q Hq ->; exact (HE p Hq Hp)).
-      assert (IOq : forall q, q <> p -> lz_of w7 q = lz_of w q).
-      { intros q Hne. rewrite IO7. destruct (Nat.eqb_spec q p); [contradiction|]. unfold lz_of, wn; cbn [set_props w_props]. rewrite lookup_bind_other by exact Hne.
-        change (lz_of w3 q = lz_of w q). apply IO3. }
-      assert (Leafx : forall q x lf p', lz_of w q = Some x -> In lf (leaves (b_root x)) -> lf_tg lf = Some p' -> p' <> p).
-      { intros q x lf p' Hx Hi Ht ->. destruct (lz_of_bind _ _ _ Hx) as (b' & pr' & _ & _ & Hb').
-        destruct (leaf_target_exists w b' x lf p Hinv Hb' Hi Ht) as (pr0 & Hp0 & _). congruence. }
-      split; [|split; [|split]].
-      - apply NoDup_snoc; [exact ND|]. intros Hi. exact (Hpn7 p Hi eq_refl).
-      - (* dependency order *)
-        assert (App : forall regs, (forall q, In q regs -> q <> p) -> lchain w regs -> lchain w7 (regs ++ [p])).
-        { induction regs as [|q r IHr]; cbn [lchain app]; intros Hne HCr'.
-          - split; [|exact I]. intros x lf p' Hx Hi Ht [<-|[]]. rewrite IO7, Nat.eqb_refl in Hx. inversion Hx; subst x. cbn [bind_with_root b_root] in Hi. rewrite Hl in Hi.
-            assert (Hlf : has_leaf w3 b0 lf) by (exists (leaves root), None; split; [unfold bview; rewrite Gn; reflexivity|exact Hi]).
-            apply (pi_leafx _ _ _ _ _ _ _ Hinv3 _ _ _ Hlf Ht). unfold pview. rewrite Hp3. reflexivity.
-          - destruct HCr' as [HA HCr']. split; [|apply IHr; [intros q' Hq'; apply Hne; right; exact Hq'|exact HCr']].
-            intros x lf p' Hx Hi Ht. rewrite (IOq q (Hne q (or_introl eq_refl))) in Hx. rewrite app_comm_cons, in_app_iff. intros [Hin|[E|[]]].
-            + exact (HA x lf p' Hx Hi Ht Hin).
-            + exact (Leafx q x lf p' Hx Hi Ht (eq_sym E)). }
-        apply App; [exact Hpn7|exact HCr].
-      - intros rb Hi. apply in_app_iff in Hi. replace (length (w_binds w7)) with (S b0).
-        + destruct Hi as [Hi|[<-|[]]]; [specialize (HB rb Hi); unfold b0 in *; lia|cbn; lia].
-        + destruct V67 as (_ & _ & _ & _ & _ & _ & Ln). rewrite Ln. unfold w6, put_bind; cbn [set_binds w_binds]. rewrite upd_length.
-          change (w_binds w5) with (w_binds w3). unfold w3; cbn [set_binds set_evps w_binds]. rewrite app_length, B1. cbn. unfold b0. lia.
-      - intros q Hi. rewrite L7. destruct (Nat.eqb_spec q p); [discriminate|]. apply in_app_iff in Hi. destruct Hi as [Hi|[<-|[]]]; [|congruence].
-        unfold wn; cbn [set_props w_props]. rewrite lookup_bind_other by assumption. specialize (HE q Hi).
+      rewrite Er.
+      assert (Hpn7 : forall q, In q (regs_of w (ep_registry st0)) -> q <> p) by (intros q Hq ->; exact (HE p Hq Hp)).
+      split; [exact ND|]. split; [|split].
+      + assert (Same : forall regs, (forall q, In q regs -> q <> p) -> lchain w regs -> lchain w7 regs).
+        { induction regs as [|q r IHr]; cbn [lchain]; intros Hne HCr'; [exact I|]. destruct HCr' as [HA HCr'].
+          split; [|apply IHr; [intros q' Hq'; apply Hne; right; exact Hq'|exact HCr']].
+          intros x lf p' Hx Hi Ht. rewrite (IOq q (Hne q (or_introl eq_refl))) in Hx. exact (HA x lf p' Hx Hi Ht). }
+        apply Same; [exact Hpn7|exact HCr].
+      + intros rb Hi. rewrite Len7. specialize (HB rb Hi). unfold b0 in *. lia.
+      + intros q Hi. rewrite L7. destruct (Nat.eqb_spec q p) as [->|Hqp]; [exfalso; exact (Hpn7 p Hi eq_refl)|].
+        unfold wn; cbn [set_props w_props]. rewrite lookup_bind_other by exact Hqp. specialize (HE q Hi).
         pose proof (V3 q) as Evq. unfold values in Evq. destruct (lookup (w_props w3) q); [discriminate|]. destruct (lookup (w_props w) q); [discriminate Evq|contradiction]. }
     destruct fuel as [|f]; [cbn [set_helper] in H; discriminate H|].
-    destruct (lazy_assignment fn rtl ev ev_pos f w7 p v w' SC7 (LCOH_of_LSND w7 Hinv7 SND7) H) as (A1 & A2 & A3 & _).
+    destruct (lazy_assignment fn rtl ev f w7 p v w' SC7 (LCOH_of_LSND w7 Hinv7 SND7) H) as (A1 & A2 & A3 & _).
     split; [exact A1|]. split; [apply LSND_of_LCOH; exact A2|]. exact (LREG_REQ w7 w' (REQ_LFR w7 w' A3 (LFR_props_dom w7 w' A3)) REG7).
   Qed.
 
@@ -431,8 +452,9 @@ Section GrowLazy.
     | PNew _ _ | PSet _ _ _ | PGet _ | PHasBinding _ | BevCopy _ _ => True
     | PObserve _ _ _ _ None => True
     | BevNew _ => True
-    | PBind p _ (MEvaluator e0) => lookup (w_props w) p = None /\ lookup (w_bevs w) e0 = Some ev
-    | BevEvalAll e0 => lookup (w_bevs w) e0 = Some ev
+    (* through ev or through any other explicit evaluator (index 0 is the immediate one) *)
+    | PBind p _ (MEvaluator e0) => lookup (w_props w) p = None /\ match lookup (w_bevs w) e0 with Some ev' => Nat.eqb ev' 0 = false | None => False end
+    | BevEvalAll e0 => match lookup (w_bevs w) e0 with Some ev' => Nat.eqb ev' 0 = false | None => False end
     | _ => False
     end.
 
@@ -442,7 +464,7 @@ Section GrowLazy.
     - intros t pos ser label act Hs. destruct V as (_ & T & _). unfold slot_at in Hs. rewrite T in Hs. eapply Hna; eauto.
     - intros q x Hx. unfold lz_of in Hx. rewrite P in Hx. destruct (lookup (w_props w) q) as [pr|] eqn:Hq; [|discriminate Hx].
       destruct (pr_updater pr) as [b|] eqn:Hu; [|discriminate Hx]. rewrite G in Hx. apply (Hsi q x). unfold lz_of. rewrite Hq, Hu. exact Hx.
-    - intros b x Hx. rewrite G in Hx. eauto.
+    - split; [exact (proj1 Hal)|]. intros b x Hx. rewrite G in Hx. exact (proj2 Hal _ _ Hx).
   Qed.
   Lemma LSND_views w w' : (forall b, get_bind w' b = get_bind w b) -> w_props w' = w_props w -> LSND w -> LSND w'.
   Proof.
@@ -476,7 +498,7 @@ Section GrowLazy.
       + intros q. unfold lz_of; cbn [set_props w_props]. rewrite lookup_bind. destruct (Nat.eqb_spec q p) as [->|]; [rewrite Hp; reflexivity|reflexivity].
       + intros q Hq. cbn [set_props w_props]. rewrite lookup_bind. destruct (Nat.eqb q p); [discriminate|exact Hq].
     - pose proof H as H'. cbn [step1] in H'. destruct (lookup (w_props w) p) as [pr|] eqn:Hp; [|discriminate H']. destruct (pr_updater pr) eqn:Hu; [discriminate H'|].
-      destruct (lazy_assignment fn rtl ev ev_pos f w p v w' HSC (LCOH_of_LSND w (proj1 HSC) HS) H') as (A1 & A2 & A3 & _).
+      destruct (lazy_assignment fn rtl ev f w p v w' HSC (LCOH_of_LSND w (proj1 HSC) HS) H') as (A1 & A2 & A3 & _).
       split; [exact A1|]. split; [apply LSND_of_LCOH; exact A2|]. exact (LREG_REQ w w' (REQ_LFR w w' A3 (LFR_props_dom w w' A3)) HR).
     - cbn [step1] in H. destruct (lookup (w_props w) p); [|discriminate H]. inversion H; subst.
       split; [eapply (LSC_views w); eauto; apply views_log|]. split; [eapply (LSND_views w); eauto|]. apply (LREG_REQ w); [|exact HR]. apply REQ_same; auto.
@@ -493,7 +515,8 @@ Section GrowLazy.
       + intros q. exact (sub_lz_of _ _ _ _ _ _ E q).
       + intros q Hq Hn. apply Hq. assert (Pn : pview w1 q = None) by (unfold pview; cbn [set_obs w_props] in Hn; rewrite Hn; reflexivity).
         apply (se_pdom _ _ _ _ _ _ E) in Pn. unfold pview in Pn. destruct (lookup (w_props w) q); [discriminate Pn|reflexivity].
-    - destruct m; [destruct Ho|]. destruct Ho as [Hp He]. eapply grow_bind_lazy; eauto.
+    - destruct m; [destruct Ho|]. destruct Ho as [Hp He]. destruct (lookup (w_bevs w) e0) as [ev'|] eqn:He0; [|destruct He].
+      apply Nat.eqb_neq in He. eapply (grow_bind_lazy (S f) w p e e0 ev'); eauto.
     - cbn [step1] in H. destruct (lookup (w_bevs w) e) eqn:Hb; [discriminate H|]. inversion H; subst.
       split; [eapply (LSC_views w); eauto; repeat split|]. split; [eapply (LSND_views w); eauto|].
       (* a new evaluator: its registry is empty *)
@@ -507,9 +530,12 @@ Section GrowLazy.
         * replace (nth_error (w_evps w ++ [{| ep_registry := []; ep_next := 0 |}]) ev) with (@None evpriv); [exact I|]. symmetry. apply nth_error_None. rewrite app_length. cbn. lia.
     - cbn [step1] in H. destruct (lookup (w_bevs w) src), (lookup (w_bevs w) dst); try discriminate H. inversion H; subst.
       split; [eapply (LSC_views w); eauto; repeat split|]. split; [eapply (LSND_views w); eauto|]. apply (LREG_REQ w); [|exact HR]. apply REQ_same; auto.
-    - pose proof H as H'. cbn [step1] in H'. rewrite Ho in H'. destruct (nth_error (w_evps w) ev) as [st|] eqn:Hst; [|discriminate H'].
-      destruct (lazy_evalall_keeps fn rtl ev ev_pos (S f) w e st w' HSC (LCOH_of_LSND w (proj1 HSC) HS) Ho Hst H) as (A1 & A2 & A3).
-      split; [exact A1|]. split; [apply LSND_of_LCOH; exact A2|]. exact (LREG_REQ w w' (REQ_LFR w w' A3 (LFR_props_dom w w' A3)) HR).
+    - destruct (lookup (w_bevs w) e) as [ev'|] eqn:He0; [|destruct Ho]. apply Nat.eqb_neq in Ho.
+      pose proof H as H'. cbn [step1] in H'. rewrite He0 in H'. destruct (nth_error (w_evps w) ev') as [st|] eqn:Hst; [|discriminate H'].
+      assert (HSC' : PropSimLazy.LSC ev' w) by (destruct HSC as (B1 & B2 & B3 & B4 & B5); exact (conj B1 (conj B2 (conj B3 (conj Ho B5))))).
+      destruct (lazy_evalall_keeps fn rtl ev' (S f) w e st w' HSC' (LCOH_of_LSND w (proj1 HSC) HS) He0 Hst H) as (A1 & A2 & A3).
+      split; [destruct A1 as (B1 & B2 & B3 & _ & B5); exact (conj B1 (conj B2 (conj B3 (conj ev_pos B5))))|].
+      split; [apply LSND_of_LCOH; exact A2|]. exact (LREG_REQ w w' (REQ_LFR w w' A3 (LFR_props_dom w w' A3)) HR).
   Qed.
 
   Fixpoint lazy_run_ok (f : nat) (w : world) (ops : list op) : Prop :=
@@ -521,7 +547,7 @@ Section GrowLazy.
   Lemma LSC_world0 : LSC world0.
   Proof.
     destruct SC_world0 as (A1 & A2 & _). split; [exact A1|]. split; [exact A2|]. split; [intros q x E; discriminate E|].
-    intros b x E. unfold get_bind in E. cbn in E. rewrite nth_nil in E. discriminate E.
+    split; [exact ev_pos|]. intros b x E. unfold get_bind in E. cbn in E. rewrite nth_nil in E. discriminate E.
   Qed.
   Lemma LSND_world0 : LSND world0.
   Proof.
@@ -557,6 +583,6 @@ Section GrowLazy.
   Proof.
     intros Hok w He H st Hst. destruct (lazy_grow_coherent f ops world0 LSC_world0 LSND_world0 LREG_world0 Hok) as (HSC & HS & HR).
     change (LSC w) in HSC. change (LSND w) in HS. change (LREG w) in HR. unfold LREG in HR. rewrite Hst in HR. destruct HR as (ND & HC & _ & _).
-    destruct (lazy_evalall_consistent fn rtl ev ev_pos (S f) w e st w' HSC (LCOH_of_LSND w (proj1 HSC) HS) He Hst ND HC H) as (_ & _ & R). exact R.
+    destruct (lazy_evalall_consistent fn rtl ev (S f) w e st w' HSC (LCOH_of_LSND w (proj1 HSC) HS) He Hst ND HC H) as (_ & _ & R). exact R.
   Qed.
 End GrowLazy.
